@@ -63,6 +63,7 @@ type pathState struct {
 	calls     int64
 	goStmts   int
 	lastModel map[string]*Term
+	alpha     map[string]string // input name -> character class it is restricted to
 }
 
 type inputDecl struct {
